@@ -91,6 +91,7 @@ pub fn behind(ctx: &Ctx) {
     if let Some(v) = &mut img.visual {
         if let Some(m) = &mut v.mask {
             m.data.clear();
+            m.length = 0;
         }
     }
     let mut ops = vec![Op::Blob(pattern(1, big)), Op::Blob(pattern(2, 1001)), Op::Image(img)];
